@@ -28,7 +28,7 @@ ASSUMPTIONS = [
     "rules written with whitespace-separated tokens (property precondition); rule blocks have an activation method",
     "readiness concerns the five operator kinds of the property; other causes of exceptions are outside its quantifier",
 ]
-FLOORS = {"C1": 5, "C1-raise": 5, "C1-acc": 1}
+FLOORS = {"C1": 5, "C1-raise": 5, "C1-acc": 1, "C1-deref": 6}
 
 MARKERS = {
     "fuzzylite.rule.Rule.AND": "AND",
@@ -192,6 +192,7 @@ def run(check: Check) -> None:
         check.ok("C1-acc", "Engine.is_ready/accumulation", "every quantity computed in a loop and used after it accumulates over all elements", loc(fn))
     check.exhaustive_parts.append("is_ready report predicates: all assignments of (needed, present) per operator kind")
     runtime_sites(check)
+    dereferences(check)
 
 
 def runtime_sites(check: Check) -> None:
@@ -231,3 +232,63 @@ def runtime_sites(check: Check) -> None:
             check.ok("C1-raise", f"{qual}/{kind}", f"runtime raises when {kind} is missing"
                      + (f" under the `{marker.lower()}` connective" if marker else "") + "; anticipated by is_ready",
                      loc(fn, found))
+
+
+OPERATOR_ATTRS = {"conjunction", "disjunction", "implication", "aggregation", "defuzzifier", "activation"}
+
+
+def operator_of(t: Term) -> str | None:
+    """The optional operator a receiver term denotes (self.aggregation, a parameter named conjunction, rule_block.implication...)."""
+    if t[0] == "attr" and t[2] in OPERATOR_ATTRS:
+        return t[2]
+    if t[0] == "param" and t[1] in OPERATOR_ATTRS:
+        return t[1]
+    return None
+
+
+def _truth_atoms(t: Term) -> list[Term]:
+    """The values whose presence a condition examines: operands of not/and/or, and `x is None` / `x is not None` / `x == None`."""
+    if t[0] == "unop" and t[1] == "not":
+        return _truth_atoms(t[2])
+    if t[0] == "bool":
+        return [a for x in t[2] for a in _truth_atoms(x)]
+    if t[0] == "cmp" and len(t[2]) == 2 and t[1][0] in ("is", "is not", "==", "!=") and ("const", None) in t[2]:
+        return [x for x in t[2] if x != ("const", None)]
+    return [t]
+
+
+def dereferences(check: Check) -> None:
+    """C1-deref: on the processing path an optional operator is dereferenced only where a dominating condition has looked at it
+    (the runtime check that is_ready anticipates) or a default operator stands in for a missing one."""
+    from ..callgraph import CallGraph
+
+    p = check.program
+    cg = CallGraph(p)
+    sites = 0
+    for q in sorted(cg.reachable(["Engine.process"])):
+        f = cg._fn.get(q)
+        if f is None or f.is_abstract:
+            continue
+        if not any(isinstance(x, ast.Attribute) and (x.attr in OPERATOR_ATTRS or (isinstance(x.value, ast.Name) and x.value.id in OPERATOR_ATTRS))
+                   for x in ast.walk(f.analysis_node)):
+            continue
+        r = Resolver(p, f)
+        cfg = r.cfg
+        for n, c in cfg.all_calls():
+            if n.copy or not isinstance(c.func, ast.Attribute):
+                continue
+            recv = r.term(c.func.value, n)
+            alts = list(recv[1]) if recv[0] == "phi" else [recv]
+            for a in alts:
+                kind = operator_of(a)
+                if kind is None:
+                    continue  # `op or Default()` / a conditional with a fallback is not a bare operator
+                sites += 1
+                check.analysed(f)
+                looked = [unparse(g) for g, pol, gn in cfg.must_guards(n) if a in _truth_atoms(r.term(g, gn))]
+                check.require(bool(looked), "C1-deref", f"{q}/{kind}.{c.func.attr}",
+                              f"`{unparse(c)[:50]}` runs only after `{looked[0][:50]}` has examined the {kind} operator" if looked else
+                              f"`{unparse(c)[:60]}` uses the {kind} operator without any check and without a default: when the engine does not "
+                              f"need a {kind} operator according to is_ready, processing fails here with AttributeError on None", loc(f, n))
+    if not sites:
+        raise AnalysisError("C1-deref: no use of an optional operator found on the processing path")
